@@ -144,7 +144,7 @@ package tchannel
 //@ ghostfield lookupHit
 //@ func (r *relayItems) Get(id uint32, stopTimeout bool) (item relayItem, stopped bool, found bool)
 //@   nosafety
-//@   modifies allbut Frame, own, lazyCallReq, Relayer, bytes
+//@   modifies allbut Frame, own, lazyCallReq, Relayer, bytes, nadmit, admitted
 //@   ensures found == has(r.items, id)
 // ghost: the table remembers the answer of its most recent lookup
 //@   defines lookupHit(r) == ite(found, 1, 0)
@@ -163,3 +163,27 @@ package tchannel
 //@   atcall Destination !has(r.outbound.items, f.Header.ID)
 //@   ensures ok ==> err == nil
 //@   property C03
+
+// ---------------------------------------------------------------------------
+// a call reaching a relay connection that is closing is declined (C20)
+// ---------------------------------------------------------------------------
+
+// nadmit(r) counts the admission checks made on relayer r; admitted(r) is the
+// answer of the most recent one.
+//@ ghostfield nadmit
+//@ ghostfield admitted
+//@ func (r *Relayer) canHandleNewCall() (ok bool, state connectionState)
+//@   modifies nadmit(r), admitted(r)
+//@   defines nadmit(r) == old(nadmit(r)) + 1 && admitted(r) == ite(ok, 1, 0)
+//@   property C20
+
+//@ iface RelayHost.Start(f relay.CallFrame, conn *relay.Conn) (call RelayCall, err error)
+//@   modifies allbut nadmit, admitted
+
+// When the relay host accepted the call but this connection no longer accepts
+// calls, the error frame sent to the caller is for the call's id and carries
+// the code "declined".
+//@ func (r *Relayer) handleCallReq(f *lazyCallReq) (shouldRelease bool, err error)
+//@   label call-on-closing-connection-is-declined
+//@   atcall SendSystemError nadmit(r) == old(nadmit(r)) + 1 && admitted(r) == 0 ==> arg1 == old(f.Header.ID) && GetSystemErrorCode(arg3) == ErrCodeDeclined
+//@   property C20
